@@ -6,3 +6,5 @@ import TsVerif.C06.Props
 #print axioms TsVerif.C06.iterPrev_fixed_steps
 #print axioms TsVerif.C06.iterPrev_undoes_iterNext
 #print axioms TsVerif.C06.int8_witness
+#print axioms TsVerif.C06.write_spec
+#print axioms TsVerif.C06.sexp_spec
